@@ -98,6 +98,7 @@ static void op_ci_decint(FILE *out, const char *id, char **a, int n) { ci_dec_co
 #include "ops_write.h"
 #include "ops_io.h"
 #include "ops_threads.h"
+#include "ops_dl.h"
 
 /* ------------------------------------------------------------------ dispatch */
 
@@ -123,6 +124,7 @@ static struct { const char *name; opfn fn; int forked; } OPS[] = {
     {"IOSEQ", op_ioseq, 1},
     {"IOFAULT", op_iofault, 1},
     {"THREADS", op_threads, 1},
+    {"DLFEED", op_dlfeed, 1},
     {NULL, NULL, 0}
 };
 
